@@ -448,6 +448,8 @@ type Contract struct {
 	Cancellable []*Clause           // func block: channels one of which every blocking wait of the function also waits on
 	AsName     string               // `option as <functype>`: the function is an instance of that function type ...
 	AsOnly     bool                 // ... and its contract says nothing else
+	Impl       []string             // wire block: interfaces *T must implement ("pkg.I") ...
+	NotImpl    []string             // ... and must not implement
 	Layouts    []WireLayout         // wire block: the field sequence of a message struct per protocol version
 	CloseOnly  []string             // type block: channel fields that are never sent on, only closed
 	FieldWrite map[string][]*Clause // type block: two-state obligations on every store to a field (self, was, now)
@@ -469,7 +471,7 @@ var clauseKeywords = map[string]bool{
 	"property": true, "mode": true, "requires": true, "ensures": true, "modifies": true, "reads": true,
 	"loop": true, "assert": true, "pure": true, "inline": true, "trusted": true, "unproved": true,
 	"assume": true, "option": true, "expect": true, "def": true, "unfold": true, "macro": true, "guards": true,
-	"invariant": true, "rely": true, "ghost": true, "replay": true, "package": true, "end": true, "ghostfield": true, "let": true, "callsite": true, "closeonly": true, "fieldwrite": true, "layout": true, "cancellable": true, "lockassume": true, "ghostdef": true, "assumeat": true, "trust-ensures": true,
+	"invariant": true, "rely": true, "ghost": true, "replay": true, "package": true, "end": true, "ghostfield": true, "let": true, "callsite": true, "closeonly": true, "fieldwrite": true, "layout": true, "implements": true, "notimplements": true, "cancellable": true, "lockassume": true, "ghostdef": true, "assumeat": true, "trust-ensures": true,
 }
 
 func firstWord(s string) (string, string) {
@@ -684,6 +686,10 @@ func ParseContractFile(path string, pkg string) (*ContractFile, error) {
 			}
 			cl.Label = r[1 : j+1]
 			cur.AssumeAt = append(cur.AssumeAt, cl)
+		case "implements":
+			cur.Impl = append(cur.Impl, strings.Fields(strings.ReplaceAll(rest, ",", " "))...)
+		case "notimplements":
+			cur.NotImpl = append(cur.NotImpl, strings.Fields(strings.ReplaceAll(rest, ",", " "))...)
 		case "layout":
 			// layout v0..v1 Name type, Name type, ...   (wire block)
 			vr, r2 := firstWord(rest)
